@@ -242,9 +242,10 @@ def run(ctx):
                        "generated values of every body x version x codec (level claimed: exploration)",
     }
     return vlib.finish(ctx, "exploration", cov, viols,
-                       ["programs follow the packetEncoder API (a pop matches a push; getRawBytes is told its length); an ARRAY "
-                        "count larger than the bytes that follow is outside the domain of getArrayLength and must fail with "
-                        "insufficient data (checked as such)",
+                       ["programs follow the packetEncoder API (a pop matches a push; getRawBytes is told its length); an ARRAY / "
+                        "COMPACT_ARRAY count larger than the bytes that follow is outside the domain of getArrayLength / "
+                        "getCompactArrayLength (every element takes at least one byte) and must fail with insufficient data "
+                        "(checked as such; RoundTrip is required of every program whose declared counts fit)",
                         "part 2 judges equality of values on the primitive cells on the wire (kind, width, bytes), as multisets where "
                         "Go map iteration may reorder entries; byte equality only where no Go map is iterated",
                         "values refused by the sizing pass are outside the domain; generated domain restrictions are listed in META.note",
